@@ -269,6 +269,8 @@ func prelude(t *testing.T, sizes []int) {
 			{Name: "b1k", Kind: gen.KDiv, K: 1000},
 			{Name: "b4k", Kind: gen.KDiv, K: 4096},
 			{Name: "b64k", Kind: gen.KDiv, K: 65536},
+			{Name: "p2", Kind: gen.KPow2, Prefix: "blk"}, // values holding for exactly 1,2,4,...,2^k rows
+			{Name: "b3k", Kind: gen.KDiv, K: 3000},
 		}}}
 		a0, b0, c0 := model.Eq("a", "v0"), model.Eq("b", "0"), model.Eq("c", "hit")
 		c := &Case{Data: spec, Probes: true, Exprs: []model.Expr{
@@ -287,7 +289,19 @@ func replay(cf *evid.CaseFile) error {
 	return oracle(&c)
 }
 
+// bigBitmaps: few values on very many rows (every stored bitmap is tens of
+// KiB, several of them written in one batch).
+func bigBitmaps(t *testing.T, n int) {
+	spec := gen.DataSpec{Recipe: &gen.Recipe{N: n, Cols: []gen.ColSpec{
+		{Name: "a", Kind: gen.KMod, K: 3, Prefix: "v"}, {Name: "b", Kind: gen.KTwo, K: 5}}}}
+	a0, a1 := model.Eq("a", "v0"), model.Eq("a", "v1")
+	run(t, &Case{Data: spec, Probes: true, Exprs: []model.Expr{model.And(a0, a1), model.Or(a0, a1), model.Not(a0), model.And(model.Not(a1), model.Eq("b", "3"))}})
+}
+
 func TestQuick(t *testing.T) {
+	if shard, _ := evid.Shard(); shard == 1 {
+		bigBitmaps(t, 200000)
+	}
 	if shard, _ := evid.Shard(); shard == 0 {
 		fix.Pinned(t, prop, replay)
 		prelude(t, []int{0, 1, 2, 999, 1000, 1001, 4095, 4096, 4097, 65535, 65536, 65537})
@@ -302,6 +316,10 @@ func TestQuick(t *testing.T) {
 
 func TestThorough(t *testing.T) {
 	shard, _ := evid.Shard()
+	if shard == 1 {
+		bigBitmaps(t, 200000)
+		bigBitmaps(t, 300001)
+	}
 	if shard == 0 {
 		fix.Pinned(t, prop, replay)
 		prelude(t, []int{0, 1, 2, 999, 1000, 1001, 4095, 4096, 4097, 65535, 65536, 65537, 131071, 131072, 131073})
